@@ -285,6 +285,38 @@ fn curve2(spec: &Curve2Spec, t: &Iso2D, t2: &Iso2D, qs: &[P2], ls: &[f64]) -> Ve
             near && !(s0.fraction() == 0.0 || s0.fraction() == 1.0) || (near && s1.fraction() != s0.fraction())
         };
         cx.label_if(near_vertex, "station_beside_vertex");
+        // the interpolated surface / direction points of a station strictly inside an edge blend the two neighbouring
+        // vertex stations: the point moves with T, the blended normal only rotates (an exactly opposed pair makes the
+        // blend undefined and the dependency panics: excluded)
+        if !near_vertex && !cusp && s0.fraction() > 0.0 && s0.fraction() < 1.0 && s1.fraction() > 0.0 && s1.fraction() < 1.0 && s0.index() == s1.index() {
+            if let (Ok(a0), Ok(a1), Ok(d0), Ok(d1)) = (guarded(|| s0.interpolated_surface_point()), guarded(|| s1.interpolated_surface_point()), guarded(|| s0.interpolated_direction_point()), guarded(|| s1.interpolated_direction_point())) {
+                let finite = |p: &engeom::SurfacePoint2| p.normal.x.is_finite() && p.normal.y.is_finite();
+                if finite(&a0) && finite(&a1) && finite(&d0) && finite(&d1) {
+                    // neighbours that nearly oppose each other make the blend ill-conditioned
+                    let well = |s: &engeom::CurveStation2| match (s.previous(), s.next()) {
+                        (Some(p), Some(n)) => p.normal().dot(&n.normal()) > -0.99 && p.direction().dot(&n.direction()) > -0.99 && !p.normal().x.is_nan() && !n.normal().x.is_nan(),
+                        _ => true,
+                    };
+                    // a neighbouring vertex at which the curve doubles back has a direction that is rounding noise
+                    let sharp = |k: usize| -> bool {
+                        let v = c.points();
+                        let n = v.len();
+                        let prev = if k > 0 { Some(v[k] - v[k - 1]) } else if c.is_closed() && n >= 3 { Some(v[n - 1] - v[n - 2]) } else { None };
+                        let next = if k + 1 < n { Some(v[k + 1] - v[k]) } else if c.is_closed() && n >= 3 { Some(v[1] - v[0]) } else { None };
+                        match (prev, next) {
+                            (Some(a), Some(b)) => (a.normalize() + b.normalize()).norm() < 1e-2,
+                            _ => false,
+                        }
+                    };
+                    if well(&s0) && well(&s1) && !sharp(s0.index()) && !sharp(s0.index() + 1) {
+                        ensure!((iso * a0.point - a1.point).norm() <= tol * 4.0, "C03/curve2/interpolated_surface_point/point", "interpolated surface point does not move with T");
+                        ensure!((iso.rotation * a0.normal.into_inner() - a1.normal.into_inner()).norm() <= 1e-6, "C03/curve2/interpolated_surface_point/normal", "interpolated normal {:?} -> {:?} is not rotated only (rotation {:e})", a0.normal.into_inner(), a1.normal.into_inner(), t.angle);
+                        ensure!((iso.rotation * d0.normal.into_inner() - d1.normal.into_inner()).norm() <= 1e-6, "C03/curve2/interpolated_direction_point/direction", "interpolated direction {:?} -> {:?} is not rotated only (rotation {:e})", d0.normal.into_inner(), d1.normal.into_inner(), t.angle);
+                        cx.label("interpolated_points");
+                    }
+                }
+            }
+        }
         if !s0.direction().x.is_nan() && !cusp && !near_vertex {
             // an edge only a few tolerances long has a direction that is itself uncertain by (coordinate rounding) / (edge length)
             let v = c.points();
